@@ -732,6 +732,7 @@ func init() {
 		registerReplay("C18/overlapping-reads", runOverlapCase)
 		registerReplay("C18/held-writes", runHeldWriteCase)
 		registerReplay("C18/client-pairs", runClientPairCase)
+		registerReplay("C18/repeated-listings", func(c nestCase) *fail { return runNestCase(c, nil) })
 		registerReplay("C18/concurrent-versions", runConcVersionCase)
 	})
 }
@@ -740,6 +741,17 @@ func TestC18(t *testing.T) {
 	h := begin(t, "C18")
 	defer h.Finish()
 	env := h.Env
+	// listings of composed file systems, repeated: the entries of a later Rreaddir
+	// are those of the first (engine of C20: every way of learning a QID, two
+	// traversals, through client and server)
+	rapidCases(h, "repeated-listings", env.PerShard(env.Pick(320, 16000)), func(rt *rapid.T) nestCase {
+		return nestCase{Root: genNestNodes(rt, 1, "e"), Server: true}
+	}, func(c nestCase) *fail {
+		st := &nestStats{}
+		f := runNestCase(c, st)
+		h.Case(evid.HashJSON(c), st.depth >= 1, "repeated-listings")
+		return f
+	})
 	// many connections negotiating at once
 	for rep := 0; rep < env.Pick(32, 640)/env.NShards+1; rep++ {
 		c := concVersionCase{Conns: 8 + 8*(rep%3), Rounds: 300}
